@@ -108,6 +108,38 @@ let handle cmd =
     let n1 = nint () in let s1 = rd_list n1 (fun () -> z_of_int (nint ())) in
     let n2 = nint () in let s2 = rd_list n2 (fun () -> z_of_int (nint ())) in
     string_of_int (int_of_z (lb_keogh_model inner w s1 s2))
+  | "ckern" ->
+    (* the four dtw_distance* kernels as regenerated from dd_dtw.c (Gen_cdist.v) *)
+    let variant = nint () in
+    let window = z_of_int (nint ()) in
+    let max_dist = Fin (z_of_int (nint ())) in let max_step = Fin (z_of_int (nint ())) in
+    let mld = z_of_int (nint ()) in let penalty = Fin (z_of_int (nint ())) in
+    let p1b = z_of_int (nint ()) in let p1e = z_of_int (nint ()) in
+    let p2b = z_of_int (nint ()) in let p2e = z_of_int (nint ()) in
+    let use_pruning = nint () = 1 in let only_ub = nint () = 1 in
+    let inner_dist = z_of_int (nint ()) in
+    let nd = nint () in
+    let l1 = nint () in let f1 = rd_list (l1 * nd) (fun () -> z_of_int (nint ())) in
+    let l2 = nint () in let f2 = rd_list (l2 * nd) (fun () -> z_of_int (nint ())) in
+    let rec chunk l = if l = [] then [] else
+        let rec take k l = if k = 0 then ([], l) else (match l with [] -> ([], []) | x :: r -> let (a, b) = take (k - 1) r in (x :: a, b)) in
+        let (a, b) = take nd l in a :: chunk b in
+    let pts1 = chunk f1 and pts2 = chunk f2 in
+    let junk k = Fin (Z.add (z_of_int 777) k) in
+    let zl1 = z_of_int l1 and zl2 = z_of_int l2 and znd = z_of_int nd in
+    let ub_abs = Fin (ed_model AbsDiff pts1 pts2) and ub_sq = Fin (ed_model SqEuclid pts1 pts2) in
+    let eu () = if variant land 1 = 0
+      then c_dtw_distance_euclidean ub_abs junk f1 zl1 f2 zl2 max_dist mld max_step only_ub penalty p1b p1e p2b p2e use_pruning window
+      else c_dtw_distance_ndim_euclidean ub_abs junk f1 zl1 f2 zl2 znd max_dist mld max_step only_ub penalty p1b p1e p2b p2e use_pruning window in
+    let (r, ok) =
+      if variant >= 2 then eu ()
+      else begin
+        let sub = (match fst (eu ()) with RPlain v -> v | RSqrt v -> v) in
+        if variant = 0
+        then c_dtw_distance sub ub_sq ub_sq junk f1 zl1 f2 zl2 inner_dist max_dist mld max_step only_ub penalty p1b p1e p2b p2e use_pruning window
+        else c_dtw_distance_ndim sub ub_sq ub_sq junk f1 zl1 f2 zl2 znd inner_dist max_dist mld max_step only_ub penalty p1b p1e p2b p2e use_pruning window
+      end in
+    (match r with RSqrt v -> "sqrt " ^ str_cost v | RPlain v -> "plain " ^ str_cost v) ^ (if ok then " ok" else " OUT-OF-BOUNDS")
   | _ -> failwith ("unknown command " ^ cmd)
 
 let () =
